@@ -158,7 +158,15 @@ def judge(ck, events, hists, label):
     """History traces: one violation per (history, clause), at the first step where it shows."""
     if not events:
         return
-    verdicts = ck.trace("UseStack_Trace", events, label=label, timeout=1500)
+    # sliced at history boundaries so that no single JVM has to hold a very large trace
+    verdicts, part, n = [], [], 0
+    for k, e in enumerate(events):
+        part.append(e)
+        if len(part) >= 2500 and (k + 1 == len(events) or events[k + 1]["i"] == 1):
+            verdicts += ck.trace("UseStack_Trace", part, label=f"{label}[{n}]", timeout=ck.pick(1500, 10800))
+            part, n = [], n + 1
+    if part:
+        verdicts += ck.trace("UseStack_Trace", part, label=f"{label}[{n}]", timeout=ck.pick(1500, 10800))
     first = {}
     for v in verdicts:
         if v["clause"] == "OutsideDomain":
@@ -177,7 +185,7 @@ def judge_flat(ck, events, label):
     if not events:
         return
     slim = [{k: v for k, v in e.items() if k != "case"} for e in events]
-    for v in ck.trace("UseStack_Trace", slim, label=label, timeout=1500):
+    for v in ck.trace("UseStack_Trace", slim, label=label, timeout=ck.pick(1500, 10800)):
         e = events[v["tid"]]
         if v["clause"] == "OutsideDomain":
             raise tlc.MachineryError(f"generator left the property's domain: {e['case']}")
@@ -397,27 +405,27 @@ S4 = ["glob", "any_a", "eq_a1", "ge_a2"]
 def model_check(ck):
     W = 4
     # the repaired design is verified ...
-    ck.mc("UseStack_Collapse", cfg_text=collapse_cfg(FIXED, 3, 1, S2), workers=W, timeout=1200, label="MC:Collapse repaired N=3 2 scopes")
-    ck.mc("UseStack_MC", cfg_text=mech_cfg(FIXED, 2, 1, ["glob", "eq_a1"]), workers=W, timeout=1200,
+    ck.mc("UseStack_Collapse", cfg_text=collapse_cfg(FIXED, 3, 1, S2), workers=W, timeout=ck.pick(1500, 10800), label="MC:Collapse repaired N=3 2 scopes")
+    ck.mc("UseStack_MC", cfg_text=mech_cfg(FIXED, 2, 1, ["glob", "eq_a1"]), workers=W, timeout=ck.pick(1500, 10800),
           label="MC:mechanism repaired NA=2 NB=1 2 scopes")
     # ... and the legacy design is refuted by TLC (counterexamples kept in the evidence; whether the
     # implementation under test still has them is decided by the traces below, not here)
     cex = {}
-    r = ck.mc("UseStack_Collapse", cfg_text=collapse_cfg(LEGACY, 3, 1, S2), workers=W, timeout=1200, expect_ok=False,
+    r = ck.mc("UseStack_Collapse", cfg_text=collapse_cfg(LEGACY, 3, 1, S2), workers=W, timeout=ck.pick(1500, 10800), expect_ok=False,
               label="MC:Collapse legacy (wildcard reset)")
     cex["collapse_moves_flags_across_a_wildcard_reset"] = dict(violated=r.violated or "", last_state=counterexample(r))
     if ck.tier == "thorough":
-        ck.mc("UseStack_Collapse", cfg_text=collapse_cfg(FIXED, 3, 1, S3), workers=W, timeout=2400, label="MC:Collapse repaired N=3 3 scopes")
-        ck.mc("UseStack_MC", cfg_text=mech_cfg(FIXED, 2, 1, ["glob", "any_a", "eq_a1"]), workers=W, timeout=2400,
+        ck.mc("UseStack_Collapse", cfg_text=collapse_cfg(FIXED, 3, 1, S3), workers=W, timeout=10800, label="MC:Collapse repaired N=3 3 scopes")
+        ck.mc("UseStack_MC", cfg_text=mech_cfg(FIXED, 2, 1, ["glob", "any_a", "eq_a1"]), workers=W, timeout=10800,
               label="MC:mechanism repaired NA=2 NB=1 3 scopes")
-        ck.mc("UseStack_Collapse", cfg_text=collapse_cfg(FIXED, 3, 1, S4), workers=W, timeout=2400, label="MC:Collapse repaired N=3 4 scopes")
-        ck.mc("UseStack_Collapse", cfg_text=collapse_cfg(FIXED, 2, 2, S4), workers=W, timeout=2400, label="MC:Collapse repaired N=2 two-token entries")
-        ck.mc("UseStack_MC", cfg_text=mech_cfg(FIXED, 3, 1, ["glob", "any_a", "eq_a1"]), workers=W, timeout=2400,
-              label="MC:mechanism repaired NA=3 NB=1")
-        r = ck.mc("UseStack_Collapse", cfg_text=collapse_cfg((True, False, False), 3, 1, S3), workers=W, timeout=1200, expect_ok=False,
+        ck.mc("UseStack_Collapse", cfg_text=collapse_cfg(FIXED, 3, 1, S4), workers=W, timeout=10800, label="MC:Collapse repaired N=3 4 scopes")
+        ck.mc("UseStack_Collapse", cfg_text=collapse_cfg(FIXED, 2, 2, S3), workers=W, timeout=10800, label="MC:Collapse repaired N=2 two-token entries")
+        ck.mc("UseStack_MC", cfg_text=mech_cfg(FIXED, 3, 1, ["glob", "eq_a1"]), workers=W, timeout=10800,
+              label="MC:mechanism repaired NA=3 NB=1 2 scopes")
+        r = ck.mc("UseStack_Collapse", cfg_text=collapse_cfg((True, False, False), 3, 1, S3), workers=W, timeout=ck.pick(1500, 10800), expect_ok=False,
                   label="MC:Collapse legacy (delta filter)")
         cex["collapse_drops_a_flag_an_earlier_specific_entry_had_toggled"] = dict(violated=r.violated or "", last_state=counterexample(r))
-        r = ck.mc("UseStack_MC", cfg_text=mech_cfg((True, True, False), 4, 0, ["glob", "any_a", "eq_a1"]), workers=W, timeout=2400,
+        r = ck.mc("UseStack_MC", cfg_text=mech_cfg((True, True, False), 4, 0, ["glob", "any_a", "eq_a1"]), workers=W, timeout=10800,
                   expect_ok=False, label="MC:mechanism legacy (catch-up of globals)")
         cex["collapsed_globals_replayed_after_package_entries"] = dict(violated=r.violated or "", last_state=counterexample(r))
     ck.extra["legacy_design_counterexamples"] = cex
@@ -468,10 +476,10 @@ def run(ck):
     # ---- spec -> code: TLC-simulated histories
     D = ck.pick(7, 9)
     sim = tlc.run("UseStack_Sim", cfg_text=f"SPECIFICATION SimSpec\nCONSTANT D = {D}\nCONSTANT K = 3\nCONSTRAINT SimBound\nINVARIANT Emit\n",
-                  simulate=f"num={ck.pick(8, 80)}", depth=2 * D + 2, seed=seed_of(), workers=1, timeout=900)
+                  simulate=f"num={ck.pick(8, 50)}", depth=2 * D + 2, seed=seed_of(), workers=1, timeout=ck.pick(1500, 10800))
     ck.add_mc(f"Simulate:UseStack_Sim depth={D}", sim)
     behs = [p[1] for p in sim.tagged("BEH")]
-    want = ck.pick(150, 2500)
+    want = ck.pick(150, 1500)
     if len(behs) < want // 2:
         raise tlc.MachineryError(f"simulation produced only {len(behs)} behaviours\n{sim.out[-1500:]}")
     r_.shuffle(behs)
@@ -487,7 +495,7 @@ def run(ck):
     judge(ck, events, hists, "Trace:simulated-histories")
     # ---- code -> spec: random histories
     events, hists = [], {}
-    for tid in range(ck.pick(200, 4000)):
+    for tid in range(ck.pick(200, 2500)):
         h = rand_history(r_, r_.randint(3, ck.pick(10, 14)))
         hists[tid] = h
         run_history(w, tid, h, events)
@@ -496,10 +504,10 @@ def run(ck):
     ck.sample(dict(direction="code->spec", history=hists[0]))
     judge(ck, events, hists, "Trace:random-histories")
     # ---- the collapse itself
-    seqs = ck.export("UseStack_Export", cfg_text=f"CONSTANT N = {ck.pick(2, 3)}\nCONSTANT MaxTok = 1\nCONSTANT MCScopes = {scopes(ck.pick(S2, S4))}\n",
-                     timeout=900)
+    seqs = ck.export("UseStack_Export", cfg_text=f"CONSTANT N = {ck.pick(2, 3)}\nCONSTANT MaxTok = 1\nCONSTANT MCScopes = {scopes(ck.pick(S2, S3))}\n",
+                     timeout=ck.pick(1500, 10800))
     cases = [dict(ev="collapse", key="a", seq=c["seq"]) for c in seqs]
-    cases += [rand_collapse(r_) for _ in range(ck.pick(200, 6000))]
+    cases += [rand_collapse(r_) for _ in range(ck.pick(200, 3000))]
     evs = []
     for c in cases:
         e = collapse_event(w, c)
@@ -512,7 +520,7 @@ def run(ck):
     judge_flat(ck, evs, "Trace:collapse")
     # ---- lines and whole domains
     evs = []
-    for _ in range(ck.pick(60, 1500)):
+    for _ in range(ck.pick(60, 800)):
         cfg = rand_cfg(r_)
         for e in domain_events(w, cfg):
             e.update(tid=len(evs), i=0)
